@@ -114,11 +114,14 @@ inline void worker_main(LT* lt, std::function<void()> on_exit = {})
   if (on_exit) on_exit();
 }
 
+inline void (*g_on_park)(LT*) = nullptr;   // harness hook run on the logical thread right before it parks
+
 // called on a logical thread: hand the token back to the driver and wait to be resumed
 inline void park(char const* why)
 {
   LT* lt = tl_self;
   if (!lt) return;
+  if (g_on_park) g_on_park(lt);
   std::unique_lock<std::mutex> l{g_m};
   lt->st = LT::PARKED;
   lt->why = why;
